@@ -101,6 +101,7 @@ def _worker(prop, vseed, indices, outfile, deadline, overrides):
                     agg[k][kk] = agg[k].get(kk, 0) + v
             for k in ("ref_forks", "o1_compared", "o3_groups"):
                 agg[k] += st[k]
+            agg["layout_sensitive_unjudged"] = agg.get("layout_sensitive_unjudged", 0) + st.get("layout_sensitive_unjudged", 0)
             for kk, v in res["probes"].items():
                 if kk in ("max_nest_depth", "module_fingerprints"):
                     agg["probes"][kk] = max(agg["probes"].get(kk, 0), v)
@@ -243,6 +244,7 @@ def merge_aggs(aggs):
         m["cov_runs"] += a.get("cov_runs", 0)
         for k in ("runs", "steps", "ref_forks", "o1_compared", "o3_groups", "nontrivial", "skipped_deadline", "fault_runs", "faultfree_runs"):
             m[k] += a[k]
+        m["layout_sensitive_unjudged"] = m.get("layout_sensitive_unjudged", 0) + a.get("layout_sensitive_unjudged", 0)
         for k in ("ops", "faults_fired", "interrupt_sites", "status", "disk_probes", "discarded", "faults_placed"):
             for kk, v in a.get(k, {}).items():
                 m[k][kk] = m[k].get(kk, 0) + v
@@ -582,6 +584,7 @@ def write_evidence(prop, tier, vseed, agg, aggB, pair_checked, n_new, known_hits
             "sharing_graphs": len(agg["share_sigs"]),
             "store_states": sorted(agg["store_states"]),
             "probes": dict(sorted({**agg["probes"], **agg["disk_probes"]}.items())),
+            "layout_sensitive_numeric_differences_unjudged": agg.get("layout_sensitive_unjudged", 0),
             "isolated_reference_forks": agg["ref_forks"], "o1_comparisons": agg["o1_compared"], "o3_repeat_groups": agg["o3_groups"],
             "hashseed_pairs_compared": pair_checked, "hashseeds": ["0", SECOND_HASHSEED],
             "discarded": agg["discarded"],
